@@ -92,3 +92,11 @@ Example C02_nonvacuous :
   ex_skip (ex_world 5 [2] txt_a) ex_disk = true /\ ex_skip (ex_world 7 [2] txt_a) ex_disk = false /\
   ex_skip (ex_world 5 [1] txt_b) ex_disk = false /\ ex_skip (ex_world 5 [1] txt_a) None = false.
 Proof. vm_compute. repeat split. Qed.
+
+(* "whose script succeeded" is decided by engine/builder.rs (Model/Builder.v): completed = spawned, not cancelled, exit code 0 *)
+From Zinoma.Model Require Import Builder.
+From Zinoma.Proofs Require Import Builder.
+
+Theorem C02_completed_iff_exit_zero : forall spawn_ok cancelled_first st,
+  build_report spawn_ok cancelled_first st = RepCompleted <-> spawn_ok = true /\ cancelled_first = false /\ st = WExited 0%N.
+Proof. exact completed_iff. Qed.
